@@ -155,6 +155,15 @@ func DecodeMessage(data []byte) (Message, error) {
 	case float64:
 		// coerce the id type to int64 if it is float64, the spec does not allow fractional parts
 		id = Int64ID(int64(v))
+		// float64 cannot represent every int64 (beyond 2^53): re-read an integral id exactly
+		var exact struct {
+			ID json.Number `json:"id"`
+		}
+		if json.Unmarshal(data, &exact) == nil {
+			if i, err := exact.ID.Int64(); err == nil {
+				id = Int64ID(i)
+			}
+		}
 	case int64:
 		id = Int64ID(v)
 	case string:
